@@ -8,3 +8,7 @@ package persistedretry
 
 // VerifPollRetries runs one pass of the retry poller of a manager made by NewManager.
 func VerifPollRetries(m Manager) { m.(*manager).pollRetries() }
+
+// VerifClosed reports whether Close has been called on a manager made by NewManager (Close itself
+// returns only after every worker left its current execution).
+func VerifClosed(m Manager) bool { return m.(*manager).closed.Load() }
